@@ -28,6 +28,8 @@ def run(ctx):
     n = D.rule_loop_typestate(res, "C17-R1", m)
     D.rule_accept_guard(res, "C17-R1A", m)
     D.rule_segment_ends_walk(res, "C17-R1", m)
+    D.rule_entry_classification(res, "C17-R1", m)
+    D.rule_header_reads(res, "C17-R1", ctx, fb)  # entries are opened, continued and released by the segment types the wire carries  # every frame of an endpoint is walked: nothing but 'no frame header' / TECMP leaves early
     D.rule_assembled_by_state(res, "C17-R1", m)  # completion (and with it the release) is decided by the segment state alone
     D.rule_default_entry_rejected(res, "C17-R1L", m)
     D.rule_buffer_growth(res, "C17-R2", m)
